@@ -88,8 +88,15 @@ let elem_eq kind (x : n) (y : n) : bool =
   | "pad" -> pad_a c = pad_a d && (pad_b c) lor 1 = (pad_b d) lor 1
   | _ -> x = y
 
+let cconcat_case () =
+  let n k = n_of_string (string_of_int k) in
+  let a = [n 1; n 2] and b = [n 3; n 4; n 5] and s2 = [n 6; n 7] and e = [] in
+  List.iter (fun ls -> print_list "l" (arr_concat ls))
+    [[e; a; b]; [a; e; b]; [a; b; e]; [e; e; a; e; s2; e; b]; [e; e]; [a; b; s2; a; b]]
+
 let array_case hdr ops =
   let kind = List.hd hdr in
+  if kind = "cconcat" then cconcat_case () else
   let len = int_of_string (List.nth hdr 1) in
   let a = ref (take len (pad len (nums (List.tl (List.tl hdr))))) in
   let sh = show kind in
@@ -117,6 +124,10 @@ let array_case hdr ops =
         let b = cyc m v in
         let c = List.init 2 (fun i -> List.nth v ((3 + i) mod List.length v)) in
         List.iter (fun ls -> plist (arr_concat ls)) [[!a]; [!a; b]; [b; !a; b]; [!a; b; c; !a]; [c; !a; b; c; b]]
+    | "concatz" :: v -> let v = pad 5 (nums v) in
+        let b = cyc 2 v and c = List.init 3 (fun i -> List.nth v ((2 + i) mod List.length v)) and e = [] in
+        List.iter (fun ls -> plist (arr_concat ls))
+          [[e; !a]; [!a; e; b]; [!a; b; e]; [e; e; !a; e; b]; [e]; [e; e; e]; [e; !a; c; e; b]; [!a; e; c]; [c; !a]]
     | _ -> print_string "?\n") ops
 
 let outs k (next : unit -> string) =
